@@ -96,7 +96,9 @@ fn header(flags: u16, counts: [u16; 4]) -> Vec<u8> {
     h
 }
 
-fn sweep(ctx: &Ctx, name: &str, alpha: &[u8], l: usize, build: &(dyn Fn(&[u8], &mut Vec<Vec<u8>>) + Sync)) {
+pub type Visit<'a> = &'a (dyn Fn(&[u8], &mut Tally) + Sync);
+
+fn sweep(ctx: &Ctx, visit: Visit, name: &str, alpha: &[u8], l: usize, build: &(dyn Fn(&[u8], &mut Vec<Vec<u8>>) + Sync)) {
     let mut shards: Vec<Vec<u8>> = vec![];
     for a in alpha {
         for b in alpha {
@@ -108,15 +110,7 @@ fn sweep(ctx: &Ctx, name: &str, alpha: &[u8], l: usize, build: &(dyn Fn(&[u8], &
         msgs.clear();
         build(x, msgs);
         for m in msgs.iter() {
-            t.evals += 1;
-            let (f, reached, acc) = check_parse(m, None);
-            if reached {
-                t.nontrivial += 1;
-            }
-            t.outcome(if !f.is_empty() { "violation" } else if acc { "accepted" } else { "rejected" });
-            if !f.is_empty() {
-                ctx.violations(f);
-            }
+            visit(m, t);
         }
         msgs.len() as u64
     };
@@ -250,29 +244,15 @@ pub fn big_families() -> Vec<(String, Vec<u8>)> {
     out
 }
 
-pub fn run(ctx: &Ctx) {
+/// Enumerate the message-shaped input spaces shared by C01 / C11 / C12 (R1, R3, R4, cut/perturb,
+/// pointer graphs), calling `visit` on every member. `shrink` lowers every bound by that amount.
+pub fn enumerate_inputs(ctx: &Ctx, visit: Visit, shrink: usize) {
     let thorough = ctx.tier == crate::engine::Tier::Thorough;
-    ctx.set_rule("Packet::parse / header peeks executed on every member of the declared byte-string spaces under catch_unwind, a thread-local allocation meter and a watchdog; non-trivial = input has a well-formed 12-byte header with a non-zero count (parsing reaches the sections); oracle: no panic, returns within the watchdog, peak heap <= 64 KiB + 512 * len");
-    ctx.assume("overflow-checks are on in the harness build, so an arithmetic overflow counts as a panic");
-    ctx.assume("heap bound 64 KiB + 512 B per input byte: measured worst legitimate amplification is 267 B per byte");
-    {
-        let root = ctx.verif_root.clone();
-        let prop = ctx.prop.clone();
-        crate::engine::start_watchdog(std::time::Duration::from_secs(10), move |what, dt| {
-            let path = format!("{}/replays/{}-hang.json", root, prop);
-            let _ = std::fs::create_dir_all(format!("{}/replays", root));
-            let body = json!({"property": prop, "signature": "C01|hang", "detail": format!("no return after {:?}", dt), "case": {"kind": "parse", "msg": hex(what)}});
-            let _ = std::fs::write(&path, serde_json::to_string(&body).unwrap());
-            println!("VIOLATION property={} replay={}", prop, path);
-            println!("  signature: C01|hang");
-            std::process::exit(1);
-        });
-    }
     // R1: header count variants + free body
     let sig1: [u8; 11] = [0x00, 0x01, 0x02, 0x0c, 0x10, 0x29, 0x3f, 0x40, 0xc0, 0xff, b'a'];
-    let l1 = ctx.tier.pick(6usize, 8usize);
+    let l1 = ctx.tier.pick(6usize, 8usize) - shrink;
     let count_variants: Vec<[u16; 4]> = vec![[1, 0, 0, 0], [0, 1, 0, 0], [0, 0, 0, 1], [2, 0, 0, 0], [1, 1, 0, 0], [0, 2, 0, 0], [0, 0xffff, 0, 0]];
-    sweep(ctx, "R1: header with 7 count shapes + free body", &sig1, l1, &|x, msgs| {
+    sweep(ctx, visit, "R1: header with 7 count shapes + free body", &sig1, l1, &|x, msgs| {
         for c in &count_variants {
             let mut m = header(0, *c);
             m.extend_from_slice(x);
@@ -283,9 +263,9 @@ pub fn run(ctx: &Ctx) {
     let mut codes: Vec<u16> = schema::supported_codes();
     codes.extend([10u16, 99]);
     let sig3: [u8; 9] = [0x00, 0x01, 0x02, 0x03, 0x17, 0x40, 0xc0, 0xff, b'a'];
-    let l3 = ctx.tier.pick(5usize, 6usize);
+    let l3 = ctx.tier.pick(5usize, 6usize) - shrink;
     let codes_ref = &codes;
-    sweep(ctx, "R3: per type code (42), root owner + envelope + every RDLENGTH in 0..=|X|+1 + X", &sig3, l3, &|x, msgs| {
+    sweep(ctx, visit, "R3: per type code (42), root owner + envelope + every RDLENGTH in 0..=|X|+1 + X", &sig3, l3, &|x, msgs| {
         for &code in codes_ref.iter() {
             for rdlen in 0..=x.len() + 1 {
                 let mut m = header(0x8000, [0, 1, 0, 0]);
@@ -342,9 +322,9 @@ pub fn run(ctx: &Ctx) {
             }
         }
     }
-    let l4 = ctx.tier.pick(4usize, 6usize);
+    let l4 = ctx.tier.pick(4usize, 6usize) - shrink;
     let pref = &prefixes;
-    sweep(ctx, &format!("R4: {} (type, field-boundary) canonical prefixes + free bytes, exact RDLENGTH", prefixes.len()), &sig3, l4, &|x, msgs| {
+    sweep(ctx, visit, &format!("R4: {} (type, field-boundary) canonical prefixes + free bytes, exact RDLENGTH", prefixes.len()), &sig3, l4, &|x, msgs| {
         for (code, pre) in pref.iter() {
             let mut m = header(0x8000, [0, 1, 0, 0]);
             m.push(0);
@@ -363,16 +343,8 @@ pub fn run(ctx: &Ctx) {
     par_shards(ctx, &seeds, |m, t: &mut Tally| {
         let mut n = 0u64;
         let mut run = |x: &[u8], t: &mut Tally| {
-            t.evals += 1;
             n += 1;
-            let (f, reached, acc) = check_parse(x, None);
-            if reached {
-                t.nontrivial += 1;
-            }
-            t.outcome(if !f.is_empty() { "violation" } else if acc { "accepted" } else { "rejected" });
-            if !f.is_empty() {
-                ctx.violations(f);
-            }
+            visit(x, t);
         };
         for cut in 0..=m.len() {
             run(&m[..cut], t);
@@ -430,19 +402,45 @@ pub fn run(ctx: &Ctx) {
                 }
                 // make the tail long enough for fixed fields, and let an answer point back into the cells
                 m.extend_from_slice(&[0, 1, 0, 1, 0xc0, 12, 0, 2, 0, 1, 0, 0, 0, 0, 0, 2, 0xc0, 13]);
-                t.evals += 1;
-                let (f, reached, acc) = check_parse(&m, None);
-                if reached {
-                    t.nontrivial += 1;
-                }
-                t.outcome(if !f.is_empty() { "violation" } else if acc { "accepted" } else { "rejected" });
-                if !f.is_empty() {
-                    ctx.violations(f);
-                }
+                visit(&m, t);
             }
         });
         ctx.space(&format!("pointer graphs: {} cells in the question-name region, an NS answer pointing into them", k), totalc, "complete");
     }
+}
+
+pub fn run(ctx: &Ctx) {
+    ctx.set_rule("Packet::parse / header peeks executed on every member of the declared byte-string spaces under catch_unwind, a thread-local allocation meter and a watchdog; non-trivial = input has a well-formed 12-byte header with a non-zero count (parsing reaches the sections); oracle: no panic, returns within the watchdog, peak heap <= 64 KiB + 512 * len");
+    ctx.assume("overflow-checks are on in the harness build, so an arithmetic overflow counts as a panic");
+    ctx.assume("heap bound 64 KiB + 512 B per input byte: measured worst legitimate amplification is 267 B per byte");
+    {
+        let root = ctx.verif_root.clone();
+        let prop = ctx.prop.clone();
+        crate::engine::start_watchdog(std::time::Duration::from_secs(10), move |what, dt| {
+            let path = format!("{}/replays/{}-hang.json", root, prop);
+            let _ = std::fs::create_dir_all(format!("{}/replays", root));
+            let body = json!({"property": prop, "signature": "C01|hang", "detail": format!("no return after {:?}", dt), "case": {"kind": "parse", "msg": hex(what)}});
+            let _ = std::fs::write(&path, serde_json::to_string(&body).unwrap());
+            println!("VIOLATION property={} replay={}", prop, path);
+            println!("  signature: C01|hang");
+            std::process::exit(1);
+        });
+    }
+    enumerate_inputs(
+        ctx,
+        &|m, t| {
+            t.evals += 1;
+            let (f, reached, acc) = check_parse(m, None);
+            if reached {
+                t.nontrivial += 1;
+            }
+            t.outcome(if !f.is_empty() { "violation" } else if acc { "accepted" } else { "rejected" });
+            if !f.is_empty() {
+                ctx.violations(f);
+            }
+        },
+        0,
+    );
     // header peeks: every buffer of length 0..=12 over {00,80,ff}, and all-c0 strings
     {
         let mut bufs: Vec<Vec<u8>> = Vec::new();
